@@ -336,7 +336,74 @@ def replay_f10(f, res):
         res.violation('regression of fixed finding F10: ' + f['what'], {'grammar': w['grammar'], 'history': w['history'], 'before': before, 'after': canon(r1)})
 
 
+def _copy_fresh_case(args):
+    """the conclusions of Props.C13.deepcopy_is_fresh_and_equal observed on the real copy(): after feeding k tokens, the fork's value stack shares no mutable
+    object (child list, Tree, Meta) with the original's and is equal to it"""
+    g, seed = args
+    from lark import Lark, Tree
+    from lark.exceptions import UnexpectedInput, GrammarError, LarkError
+    rng = random.Random(seed)
+    try:
+        with guarded(6):
+            p = Lark(g, parser='lalr', lexer='basic', propagate_positions=rng.random() < 0.5)      # basic lexer: the tokens can be lexed before any is fed
+    except (GrammarError, LarkError):
+        return {'nobuild': True}
+    def mutable_ids(stack):
+        out = {}
+        todo = list(stack)
+        while todo:
+            x = todo.pop()
+            if isinstance(x, Tree):
+                out[id(x)] = 'Tree'; out[id(x.children)] = 'children list'
+                if getattr(x, '_meta', None) is not None: out[id(x._meta)] = 'Meta'
+                todo.extend(x.children)
+            elif isinstance(x, list):
+                out[id(x)] = 'list'; todo.extend(x)
+        return out
+    shared, unequal, checked = [], [], 0
+    for _ in range(3):
+        try:
+            text = shapelib.sample_sentence(rng, p)
+        except (RecursionError, KeyError):
+            continue
+        with guarded(10):
+            ip = p.parse_interactive(text)
+            try:
+                toks = list(p.lex(text))
+                k = rng.randint(0, len(toks))
+                for t in toks[:k]: ip.feed_token(t)
+            except UnexpectedInput:
+                continue
+            fork = ip.copy()
+            a, b = mutable_ids(ip.parser_state.value_stack), mutable_ids(fork.parser_state.value_stack)
+            checked += 1
+            common = set(a) & set(b)
+            if common:
+                shared.append({'text': text, 'tokens_fed': k, 'shared_objects': sorted({a[i] for i in common})})
+            if ip.parser_state.value_stack != fork.parser_state.value_stack or ip.parser_state.state_stack != fork.parser_state.state_stack:
+                unequal.append({'text': text, 'tokens_fed': k})
+    return {'grammar': g, 'checked': checked, 'shared': shared, 'unequal': unequal}
+
+
 def run(ctx, res):
+    rngc = random.Random(ctx['seed'] * 1000003 + 1313)
+    cjobs = [(shapelib.gen_grammar(rngc), rngc.randrange(1 << 30)) for _ in range(tier_scale(ctx['tier'], 600, 6000))]
+    for job, (st, rec) in zip(cjobs, pmap(_copy_fresh_case, cjobs, chunksize=8)):
+        if st != 'ok':
+            if st == 'exc':
+                if not exc_in_lark(rec):
+                    raise InfraError(rec)
+                res.violation('copy() raised an unexpected exception', {'grammar': job[0], 'seed': job[1], 'detail': rec})
+            else:
+                res.inconclusive[st] = res.inconclusive.get(st, 0) + 1
+            continue
+        if rec.get('nobuild'):
+            continue
+        res.count('copies_checked_for_freshness', rec['checked'])
+        for f in rec['shared']:
+            res.violation('copy() shares a mutable object of the value stack with the original (the deep copy is not fresh: Props.C13.deepcopy_is_fresh_and_equal is about a copy that is)', dict(f, grammar=rec['grammar']))
+        for f in rec['unequal']:
+            res.violation('the stacks of a fresh copy() differ from the original\'s', dict(f, grammar=rec['grammar']))
     for f in ctx['known']:
         if f['id'] == 'F10' and f['status'] == 'fixed':
             replay_f10(f, res)
